@@ -42,6 +42,8 @@ COMPONENTS_REAL = [
 ]
 COMPONENTS_STUB = ["the primary server (scripted stream)", "network (netsim)", "TSIG signer of the primary (independent hmac implementation)"]
 EXPECTED_PROBES = [
+    "server_serial_behind_ours_rfc1982",
+    "largest_legal_serial_step_forward",
     "secondary_at_serial_zero",
     "valid_retry_after_failed_attempt",
     "net_tier_runs",
@@ -203,6 +205,15 @@ def gen_case(seed, tier):
     k = n if style == "uptodate" else (rng.randrange(0, n) if n > 0 else 0)
     if style == "axfr":
         k = rng.randrange(0, n + 1)
+    boundary = None
+    if n > 0 and k < n and rng.random() < 0.12:
+        # the server's serial sits at a boundary of RFC 1982 arithmetic relative to ours: the largest
+        # legal step forward (must be applied), or behind us by 1 .. 2**31 - 1 (must be refused)
+        d = rng.choice([2**31 - 1, 2**31 - 2, -1, -3, -(2**31 - 1), -(2**31 - 2), -(2**31 - 1), 2**31 - 1])
+        new = (versions[k][0] + d) % 2**32
+        if all(new != sv for sv, _ in versions):
+            versions[n] = (new, versions[n][1])
+            boundary = d
     stream = build_stream(rng, versions, k, "ixfr" if style == "udp_ixfr" else style)
     # cuts
     L = len(stream)
@@ -236,6 +247,8 @@ def gen_case(seed, tier):
         "relativize": rng.random() < 0.5,
         "with_question": rng.random() < 0.7,
         "base_serial_lie": rng.random() < 0.05,
+        "serial_boundary": boundary,
+        "btree_t": rng.choice([3, 3, 4, 127]),
     }
     if rng.random() < 0.3:
         from checks import c13net
@@ -588,7 +601,10 @@ def _run_msg(case, res, log):
         ident = {name: id(node) for name, node in b.zone.nodes.items()}
         if ident != before_ids:
             raise Violation("C13:error-after-applied", f"{tag}: node objects were replaced although {type(exc).__name__} was raised")
-    if info["fired"] is None and not case.get("base_serial_lie") and style != "usetcp":
+    behind = (case.get("serial_boundary") or 0) < 0 and mode == "IXFR"
+    if case.get("serial_boundary"):
+        res.probes.inc("server_serial_behind_ours_rfc1982" if case["serial_boundary"] < 0 else "largest_legal_serial_step_forward")
+    if info["fired"] is None and not case.get("base_serial_lie") and style != "usetcp" and not behind:
         # a valid stream must be applied and reach the server's target version
         if exc is not None:
             raise Violation("C13:valid-stream-rejected", f"{tag}: valid stream raised {type(exc).__name__}: {exc}")
@@ -618,7 +634,7 @@ def _run_msg(case, res, log):
         pass
     # follow-up 2: nothing of a failed attempt survives into the next one -- the unfaulted
     # stream of the same chain must now converge to the server's target version
-    if exc is not None and info["fired"] is not None and style in ("axfr", "ixfr", "axfr_style") and not case.get("base_serial_lie"):
+    if exc is not None and info["fired"] is not None and style in ("axfr", "ixfr", "axfr_style") and not case.get("base_serial_lie") and not behind:
         clean = dict(case)
         clean["fault"] = {"k": "none", "pos": 0, "arg": 0}
         cmsgs, _, _ = make_messages(clean)
@@ -679,6 +695,8 @@ def _run_msg(case, res, log):
 def run_case(case, keep_log=False):
     res = RunResult()
     log = EventLog(keep=keep_log)
+    if Z.set_btree_branching(case.get("btree_t")) < 127:
+        res.faults.inc("btree_branching_factor_lowered")
     try:
         if case["tier"] == "msg":
             _run_msg(case, res, log)
